@@ -408,7 +408,7 @@ impl FseTable {
             .rposition(|&freq| freq > 0)
             .unwrap_or(0) as u8;
         
-        if max_symbol == 0 {
+        if max_symbol == 0 && frequencies[0] == 0 {
             return Err(ZiporaError::invalid_data("No symbols found in frequency table"));
         }
         
